@@ -325,18 +325,35 @@ func evaluate(srv *pvpeg.Server, pigeon, dir string, seed int64, i int, av pvpeg
 		it.flags = append(it.flags, "<stdin")
 	}
 
-	ctx, cancel := context.WithTimeout(context.Background(), timeout)
-	defer cancel()
-	cmd := exec.CommandContext(ctx, pigeon, args...)
-	cmd.Env = append(os.Environ(), "PIGEON_VERIF_ASTDUMP=")
-	cmd.Dir = dir
-	if stdin {
-		cmd.Stdin = strings.NewReader(it.text)
-	}
 	var so, se bytes.Buffer
-	cmd.Stdout, cmd.Stderr = &so, &se
-	cmd.WaitDelay = time.Second
-	err := cmd.Run()
+	var ctx context.Context
+	var err error
+	// a run that does not end in time is tried once more with three times the limit: an overloaded machine must
+	// not be reported as a hang of pigeon (a real hang does not end either way)
+	for attempt, limit := 0, timeout; attempt < 2; attempt, limit = attempt+1, 3*timeout {
+		var cancel context.CancelFunc
+		ctx, cancel = context.WithTimeout(context.Background(), limit)
+		cmd := exec.CommandContext(ctx, pigeon, args...)
+		cmd.Env = append(os.Environ(), "PIGEON_VERIF_ASTDUMP=")
+		cmd.Dir = dir
+		if stdin {
+			cmd.Stdin = strings.NewReader(it.text)
+		}
+		so.Reset()
+		se.Reset()
+		cmd.Stdout, cmd.Stderr = &so, &se
+		cmd.WaitDelay = time.Second
+		err = cmd.Run()
+		timedOut := ctx.Err() != nil
+		cancel()
+		if !timedOut {
+			ctx = context.Background()
+			break
+		}
+		if outFile != "" {
+			os.Remove(outFile)
+		}
+	}
 	name := func(kind string) string { return fmt.Sprintf("pvtool-s%d-i%d-%s.peg", seed, i, kind) }
 	fail := func(kind, detail string) {
 		it.fails = append(it.fails, outcome{kind, detail, name(kind)})
